@@ -244,7 +244,22 @@ func (fc *FuncCtx) spec(e SExpr, env *SpecEnv) Term {
 		if x.Forall {
 			q = "forall"
 		}
-		return T("("+q+" ("+strings.Join(decl, " ")+") "+body.S+")", SBool)
+		bs := body.S
+		if len(x.Triggers) > 0 {
+			bs = "(! " + bs
+			for _, tr := range x.Triggers {
+				bs += " :pattern ("
+				for i, te := range tr {
+					if i > 0 {
+						bs += " "
+					}
+					bs += fc.spec(te, &n).S
+				}
+				bs += ")"
+			}
+			bs += ")"
+		}
+		return T("("+q+" ("+strings.Join(decl, " ")+") "+bs+")", SBool)
 	case SField:
 		base := fc.spec(x.X, env)
 		return fc.specField(base, x.F)
@@ -501,7 +516,7 @@ func (fc *FuncCtx) specCall(x SCall, env *SpecEnv) Term {
 		return And(Le(z, SlArr(v)), Lt(SlArr(v), env.st.next), Le(z, SlOff(v)), Le(z, SlLen(v)), Le(SlLen(v), SlCap(v)), Implies(Eq(SlArr(v), z), Eq(SlCap(v), z)))
 	case "calls":
 		fv := fc.specFuncVal(x.Args[0].(SIdent).Name, env)
-		if fv == nil || fv.Kind != "param" {
+		if fv == nil || (fv.Kind != "param" && fv.Kind != "wrap") {
 			return fc.specFail("calls() needs a callback parameter")
 		}
 		if n, ok := env.st.trn[fv.Name]; ok {
@@ -510,7 +525,7 @@ func (fc *FuncCtx) specCall(x SCall, env *SpecEnv) Term {
 		return fc.entryTrn(fv.Name)
 	case "arg", "arg0", "arg1", "arg2":
 		fv := fc.specFuncVal(x.Args[0].(SIdent).Name, env)
-		if fv == nil || fv.Kind != "param" {
+		if fv == nil || (fv.Kind != "param" && fv.Kind != "wrap") {
 			return fc.specFail("arg() needs a callback parameter")
 		}
 		pi := 0
@@ -565,7 +580,23 @@ func (fc *FuncCtx) specCall(x SCall, env *SpecEnv) Term {
 		for i := range x.Args {
 			ts = append(ts, arg(i))
 		}
+		if f, ok := smtStrLitValue(ts[0].S); ok {
+			return fc.sprintfConst(f, ts[1:])
+		}
 		return fc.sprintfUninterp(ts[0], ts[1:])
+	case "bytes2str":
+		v := arg(0)
+		fn := "bytes_to_string_" + mangle(v.Sort.SMT())
+		fc.declareFun(fn, []*Sort{v.Sort}, fc.strSort())
+		return App(fc.strSort(), fn, v)
+	case "str2bytes":
+		v := arg(0)
+		so := fc.Sorts.declSeq(SInt)
+		if fc.SliceMode == "heap" {
+			so = SliceOf(SInt)
+		}
+		fc.declareFun("string_to_bytes", []*Sort{v.Sort}, so)
+		return App(so, "string_to_bytes", v)
 	case "optpassed":
 		// optpassed(t): one of the optional (variadic) actuals o1..o6 of an extern call equals t
 		t := arg(0)
@@ -690,6 +721,8 @@ func (fc *FuncCtx) applyFuncValPure(fv *FuncVal, args []Term, env *SpecEnv) Term
 	switch fv.Kind {
 	case "param":
 		return fc.pureApp(fv, args)
+	case "wrap":
+		return fc.applyFuncValPure(fv.Inner, args, env)
 	case "named":
 		con := fc.E.CS.Funcs[fv.Name]
 		if con != nil && con.Returns != nil {
